@@ -1,7 +1,10 @@
 (* ReaderP.v — the round trip  read3 (write3 c) = c  and  read1 (export_v1 c) = c
    at the level of texts, for Model/Writer.v and Model/Reader.v, for any scalar
    type T and any decimalisation oracle dec8 returning well-formed finite
-   decimals. *)
+   decimals.  A comment may be any text without the terminator "*/" (newlines,
+   empty lines, "/*", blanks at either end included): it is written as a block
+   comment on as many lines as its text has, and [read_body] reads the block
+   back as one [RComment] with the original text. *)
 From Coq Require Import ZArith QArith List Bool String Ascii Lia.
 From Coq Require Import Decimal DecimalString.
 Import ListNotations.
@@ -370,17 +373,57 @@ Proof.
   now rewrite last_nonws_app.
 Qed.
 
+(* every line that is followed by empty lines only does not end with a blank
+   (the empty line itself included) *)
+Fixpoint trail_good (R : list string) : bool :=
+  match R with
+  | [] => true
+  | x :: R' => (if forallb is_empty R' then last_nonws x else true) && trail_good R'
+  end.
+
+Lemma trail_good_snoc (R : list string) (x : string) :
+  trail_good (R ++ [x]) = true -> last_nonws x = true /\ (x = "" -> trail_good R = true).
+Proof.
+  induction R as [|y R IH]; cbn [List.app trail_good forallb].
+  - intros H. apply andb_true_iff in H. destruct H as [H _]. split; [exact H | reflexivity].
+  - intros H. apply andb_true_iff in H. destruct H as [Hy H]. destruct (IH H) as [Hx HR].
+    split; [exact Hx|]. intros ->. rewrite (HR eq_refl), andb_true_r.
+    rewrite forallb_app in Hy. cbn [forallb is_empty] in Hy. now rewrite !andb_true_r in Hy.
+Qed.
+
+Lemma trail_good_app (A B : list string) :
+  trail_good A = true -> trail_good B = true -> trail_good (A ++ B) = true.
+Proof.
+  intros HA HB. induction A as [|x A IH]; [exact HB|]. cbn [List.app trail_good] in *.
+  apply andb_true_iff in HA. destruct HA as [Hx HA]. rewrite (IH HA), andb_true_r, forallb_app.
+  destruct (forallb is_empty A); [|reflexivity]. cbn [andb]. now destruct (forallb is_empty B).
+Qed.
+
+(* what precedes a block with a non-empty line does not matter *)
+Lemma trail_good_before (A B : list string) :
+  forallb is_empty B = false -> trail_good B = true -> trail_good (A ++ B) = true.
+Proof.
+  intros HE HB. induction A as [|x A IH]; [exact HB|]. cbn [List.app trail_good].
+  now rewrite IH, forallb_app, HE, andb_false_r.
+Qed.
+
+Lemma trail_good_all (R : list string) :
+  Forall (fun x => last_nonws x = true) R -> trail_good R = true.
+Proof.
+  induction 1 as [|x R Hx _ IH]; [reflexivity|]. cbn [trail_good]. rewrite Hx, IH. now destruct (forallb is_empty R).
+Qed.
+
 (* the final rstrip only removes trailing empty lines *)
 Lemma rstrip_unlines (P R : list string) (l : string) :
-  l <> "" -> last_nonws l = true -> Forall (fun x => last_nonws x = true) R ->
+  l <> "" -> last_nonws l = true -> trail_good R = true ->
   exists R' k, R = (R' ++ repeat "" k)%list /\
                rstrip (unlines (P ++ l :: R)) ++ NL = unlines (P ++ l :: R').
 Proof.
   intros Hne Hl. induction R as [|x R0 IH] using rev_ind; intros HR.
   - exists [], 0%nat. split; [reflexivity|]. now apply rstrip_unlines_last.
-  - apply Forall_app in HR. destruct HR as [HR0 Hx]. inversion Hx as [|? ? Hx' _]; subst.
+  - destruct (trail_good_snoc R0 x HR) as [Hx' HR0].
     destruct x as [|c x'].
-    + destruct (IH HR0) as (R' & k & -> & E). exists R', (S k). split.
+    + destruct (IH (HR0 eq_refl)) as (R' & k & -> & E). exists R', (S k). split.
       * rewrite <- app_assoc. f_equal. change [""] with (repeat "" 1). rewrite <- repeat_app.
         f_equal. lia.
       * rewrite <- E. f_equal.
@@ -430,6 +473,335 @@ Lemma comment_not_assign3 (x : string) : read_assign3 ("/* " ++ x) = None.
 Proof. reflexivity. Qed.
 Lemma comment_not_gate1 (x : string) : read_gate1 ("/* " ++ x) = None.
 Proof. reflexivity. Qed.
+
+(* ---- the pieces of a split ---- *)
+
+Lemma split_on_nonempty (d : ascii) (s : string) : split_on d s <> [].
+Proof.
+  destruct s as [|c s]; cbn [split_on]; [discriminate|].
+  destruct (Ascii.eqb c d); [discriminate|]. destruct (split_on d s); discriminate.
+Qed.
+
+Lemma split_on_pieces (d : ascii) (s : string) :
+  Forall (fun x => forall_chars (neq_char d) x = true) (split_on d s).
+Proof.
+  induction s as [|c s IH]; [repeat constructor|]. cbn [split_on].
+  destruct (Ascii.eqb c d) eqn:E; [constructor; [reflexivity | exact IH]|].
+  destruct (split_on d s) as [|l ls].
+  - repeat constructor. cbn [forall_chars]. unfold neq_char. now rewrite E.
+  - inversion IH as [|? ? Hl Hls]; subst. constructor; [|exact Hls].
+    cbn [forall_chars]. unfold neq_char at 1. now rewrite E, Hl.
+Qed.
+
+(* joining the pieces with the separator gives the text back *)
+Lemma join_split_on (d : ascii) (s : string) : join (String d "") (split_on d s) = s.
+Proof.
+  induction s as [|c s IH]; [reflexivity|]. cbn [split_on].
+  pose proof (split_on_nonempty d s) as Hne.
+  destruct (Ascii.eqb_spec c d) as [->|Hn].
+  - destruct (split_on d s) as [|l ls]; [congruence|].
+    change (join (String d "") ("" :: l :: ls)) with (String d (join (String d "") (l :: ls))).
+    now rewrite IH.
+  - destruct (split_on d s) as [|l [|l' ls]]; [congruence| |].
+    + cbn [join] in *. now rewrite IH.
+    + change (join (String d "") (String c l :: l' :: ls))
+        with (String c (l ++ String d "" ++ join (String d "") (l' :: ls))).
+      change (join (String d "") (l :: l' :: ls)) with (l ++ String d "" ++ join (String d "") (l' :: ls)) in IH.
+      now rewrite IH.
+Qed.
+
+Lemma split_nl_no_nl (s : string) : Forall (fun l => no_nl l = true) (split_on nl_char s).
+Proof.
+  eapply Forall_impl; [|apply split_on_pieces]. cbn beta. intros l Hl. now rewrite no_nl_forall.
+Qed.
+
+(* ---- the terminator in a concatenation ---- *)
+
+Lemma has_close_app_false (a b : string) :
+  has_close (a ++ b) = false -> has_close a = false /\ has_close b = false.
+Proof.
+  induction a as [|c a IH]; [intros H; split; [reflexivity | exact H]|].
+  cbn [append has_close]. intros H. apply orb_false_iff in H. destruct H as [H1 H2].
+  destruct (IH H2) as [Ha Hb]. split; [|exact Hb]. rewrite Ha, orb_false_r.
+  destruct a as [|d a']; [apply andb_false_r | exact H1].
+Qed.
+
+Lemma has_close_app_r (a b : string) : has_close b = true -> has_close (a ++ b) = true.
+Proof.
+  intros Hb. destruct (has_close (a ++ b)) eqn:E; [reflexivity|].
+  apply has_close_app_false in E. destruct E as [_ E]. congruence.
+Qed.
+
+Lemma has_close_join (L : list string) :
+  has_close (join NL L) = false -> Forall (fun x => has_close x = false) L.
+Proof.
+  induction L as [|x [|y L'] IH]; intros H.
+  - constructor.
+  - constructor; [exact H | constructor].
+  - change (join NL (x :: y :: L')) with (x ++ NL ++ join NL (y :: L')) in H.
+    apply has_close_app_false in H. destruct H as [Hx H].
+    apply has_close_app_false in H. destruct H as [_ H]. constructor; [exact Hx | exact (IH H)].
+Qed.
+
+(* no piece of a text without terminator has one *)
+Lemma has_close_pieces (t : string) :
+  has_close t = false -> Forall (fun x => has_close x = false) (split_on nl_char t).
+Proof.
+  intros H. apply has_close_join. change NL with (String nl_char ""). now rewrite join_split_on.
+Qed.
+
+Lemma close_comment_app (u : string) : has_close u = false -> close_comment (u ++ " */") = Some u.
+Proof. intros H. unfold close_comment. now rewrite until_close_app, H. Qed.
+
+Lemma opens_comment_open (r : string) :
+  opens_comment ("/* " ++ r) = if has_close r then None else Some r.
+Proof. unfold opens_comment. now rewrite strip_prefix_app. Qed.
+
+(* ---- the lines a block comment is written on ---- *)
+
+(* the last piece gets the terminator *)
+Fixpoint close_last (xs : list string) : list string :=
+  match xs with
+  | [] => []
+  | [u] => [u ++ " */"]
+  | y :: ys => y :: close_last ys
+  end.
+
+(* the lines of  "/* " x1 NL x2 NL ... NL xk " */"  *)
+Definition comment_lines (xs : list string) : list string :=
+  match xs with
+  | [] => []
+  | [x] => ["/* " ++ x ++ " */"]
+  | x :: ys => ("/* " ++ x) :: close_last ys
+  end.
+
+Lemma close_last_cons2 (y y' : string) (ys : list string) :
+  close_last (y :: y' :: ys) = y :: close_last (y' :: ys).
+Proof. reflexivity. Qed.
+
+Lemma comment_lines_cons2 (x y : string) (ys : list string) :
+  comment_lines (x :: y :: ys) = ("/* " ++ x) :: close_last (y :: ys).
+Proof. reflexivity. Qed.
+
+Lemma join_cons2 (sep x y : string) (l : list string) :
+  join sep (x :: y :: l) = x ++ sep ++ join sep (y :: l).
+Proof. reflexivity. Qed.
+
+Lemma unlines_close_last (y : string) (ys : list string) :
+  unlines (close_last (y :: ys)) = join NL (y :: ys) ++ " */" ++ NL.
+Proof.
+  revert y. induction ys as [|y' ys IH]; intros y.
+  - cbn [close_last unlines join]. now rewrite sapp_nil_r, sapp_assoc.
+  - rewrite close_last_cons2, join_cons2. cbn [unlines]. rewrite IH. now rewrite !sapp_assoc.
+Qed.
+
+Lemma unlines_comment_lines (xs : list string) : xs <> [] ->
+  unlines (comment_lines xs) = "/* " ++ join NL xs ++ " */" ++ NL.
+Proof.
+  destruct xs as [|x [|y ys]]; [congruence| |]; intros _.
+  - cbn [comment_lines unlines join]. now rewrite sapp_nil_r, !sapp_assoc.
+  - rewrite comment_lines_cons2, join_cons2. cbn [unlines]. rewrite unlines_close_last.
+    now rewrite !sapp_assoc.
+Qed.
+
+Lemma close_last_no_nl (ys : list string) :
+  Forall (fun l => no_nl l = true) ys -> Forall (fun l => no_nl l = true) (close_last ys).
+Proof.
+  induction 1 as [|y ys Hy Hys IH]; [constructor|]. destruct ys as [|y' ys'].
+  - cbn [close_last]. constructor; [now rewrite no_nl_app, Hy | constructor].
+  - rewrite close_last_cons2. constructor; assumption.
+Qed.
+
+Lemma comment_lines_no_nl (xs : list string) :
+  Forall (fun l => no_nl l = true) xs -> Forall (fun l => no_nl l = true) (comment_lines xs).
+Proof.
+  destruct xs as [|x [|y ys]]; intros H; [constructor| |]; inversion H as [|? ? Hx Hr]; subst.
+  - cbn [comment_lines]. constructor; [|constructor]. now rewrite !no_nl_app, Hx.
+  - rewrite comment_lines_cons2. constructor; [now rewrite no_nl_app, Hx | now apply close_last_no_nl].
+Qed.
+
+Lemma close_last_ends (y : string) (ys : list string) :
+  exists init u, close_last (y :: ys) = List.app init [u ++ " */"].
+Proof.
+  revert y. induction ys as [|y' ys IH]; intros y.
+  - exists [], y. reflexivity.
+  - destruct (IH y') as (init & u & E). exists (y :: init), u. rewrite close_last_cons2, E. reflexivity.
+Qed.
+
+Lemma comment_lines_ends (xs : list string) : xs <> [] ->
+  exists init u, comment_lines xs = List.app init [u ++ " */"].
+Proof.
+  destruct xs as [|x [|y ys]]; [congruence| |]; intros _.
+  - exists [], ("/* " ++ x). cbn [comment_lines List.app]. now rewrite sapp_assoc.
+  - destruct (close_last_ends y ys) as (init & u & E). exists (("/* " ++ x) :: init), u.
+    rewrite comment_lines_cons2, E. reflexivity.
+Qed.
+
+(* a comment between its two empty lines: the final rstrip stops at the terminator *)
+Lemma comment_block_trail_good (xs : list string) : xs <> [] ->
+  trail_good ("" :: comment_lines xs ++ [""]) = true.
+Proof.
+  intros H. destruct (comment_lines_ends xs H) as (init & u & ->).
+  rewrite <- app_assoc.
+  change ("" :: List.app init (List.app [u ++ " */"] [""])) with (List.app ("" :: init) [u ++ " */"; ""]).
+  apply trail_good_before.
+  - destruct u; reflexivity.
+  - cbn [trail_good forallb is_empty andb last_nonws]. rewrite last_nonws_app by discriminate. reflexivity.
+Qed.
+
+(* ---- reading the body: the state after a list of lines ---- *)
+
+(* the open comment (if any) after the lines, as [read_body] sees them *)
+Fixpoint body_state (acc : option string) (ls : list string) : option string :=
+  match ls with
+  | [] => acc
+  | l :: ls' =>
+      match acc with
+      | None =>
+          if is_empty l then body_state None ls'
+          else match opens_comment l with
+               | Some r => body_state (Some r) ls'
+               | None => body_state None ls'
+               end
+      | Some a =>
+          if has_close l then body_state None ls'
+          else body_state (Some (a ++ String nl_char l)) ls'
+      end
+  end.
+
+Lemma body_state_app (acc : option string) (A B : list string) :
+  body_state acc (A ++ B) = body_state (body_state acc A) B.
+Proof.
+  revert acc. induction A as [|l A IH]; intros acc; [reflexivity|].
+  cbn [List.app body_state]. destruct acc as [a|].
+  - destruct (has_close l); apply IH.
+  - destruct (is_empty l); [apply IH|]. destruct (opens_comment l); apply IH.
+Qed.
+
+(* lines after which no comment is open are read independently of what follows *)
+Lemma read_body_app (rl : string -> rline) (acc : option string) (A B : list string) :
+  body_state acc A = None ->
+  read_body rl acc (A ++ B) = (read_body rl acc A ++ read_body rl None B)%list.
+Proof.
+  revert acc. induction A as [|l A IH]; intros acc H.
+  - cbn [body_state] in H. subst acc. reflexivity.
+  - cbn [List.app read_body body_state] in *. destruct acc as [a|].
+    + destruct (has_close l); [|now apply IH]. cbn [List.app]. f_equal. now apply IH.
+    + destruct (is_empty l); [now apply IH|]. destruct (opens_comment l); [now apply IH|].
+      cbn [List.app]. f_equal. now apply IH.
+Qed.
+
+Lemma read_body_empties (rl : string -> rline) (k : nat) : read_body rl None (repeat "" k) = [].
+Proof. induction k as [|k IH]; [reflexivity | exact IH]. Qed.
+
+Lemma body_state_empties_open (a : string) (k : nat) : body_state (Some a) (repeat "" k) <> None.
+Proof. revert a. induction k as [|k IH]; intros a; [discriminate|]. cbn [repeat body_state has_close]. apply IH. Qed.
+
+(* after lines that leave no comment open, the number of trailing empty lines does not matter *)
+Lemma read_body_empty_tail (rl : string -> rline) (L : list string) (k j : nat) :
+  body_state None (L ++ repeat "" k) = None ->
+  read_body rl None (L ++ repeat "" j) = read_body rl None (L ++ repeat "" k).
+Proof.
+  intros H. rewrite body_state_app in H. destruct (body_state None L) as [a|] eqn:E.
+  - exfalso. exact (body_state_empties_open a k H).
+  - rewrite !read_body_app by exact E. now rewrite !read_body_empties.
+Qed.
+
+(* a line that opens no comment is read on its own *)
+Lemma single_line_read (rl : string -> rline) (l : string) :
+  l <> "" -> opens_comment l = None ->
+  read_body rl None [l] = [rl l] /\ body_state None [l] = None.
+Proof.
+  intros Hne Ho. destruct l as [|c l]; [congruence|]. cbn [read_body body_state is_empty].
+  rewrite Ho. split; reflexivity.
+Qed.
+
+(* inside a comment: the lines up to the terminator are one comment *)
+Lemma read_close_last (rl : string -> rline) (a y : string) (ys rest : list string) :
+  Forall (fun x => has_close x = false) (y :: ys) ->
+  read_body rl (Some a) (close_last (y :: ys) ++ rest) =
+    RComment (join NL (a :: y :: ys)) :: read_body rl None rest /\
+  body_state (Some a) (close_last (y :: ys)) = None.
+Proof.
+  revert a y. induction ys as [|y' ys IH]; intros a y H; inversion H as [|? ? Hy Hys]; subst.
+  - cbn [close_last List.app read_body body_state].
+    rewrite (has_close_app_r y " */" eq_refl), (close_comment_app y Hy). split; reflexivity.
+  - rewrite close_last_cons2. cbn [List.app read_body body_state]. rewrite Hy.
+    destruct (IH (a ++ String nl_char y) y' Hys) as [E1 E2]. rewrite E1, E2. split; [|reflexivity].
+    do 2 f_equal. rewrite !join_cons2, sapp_assoc. reflexivity.
+Qed.
+
+(* a whole block comment, between its two empty lines, is read as one comment
+   by any line reader that reads one-line comments *)
+Lemma comment_block_read (rl : string -> rline) (t : string) :
+  has_close t = false -> rl ("/* " ++ t ++ " */") = RComment t ->
+  read_body rl None ("" :: comment_lines (split_on nl_char t) ++ [""]) = [RComment t] /\
+  body_state None ("" :: comment_lines (split_on nl_char t) ++ [""]) = None.
+Proof.
+  intros Hc Hrl. pose proof (has_close_pieces t Hc) as HP.
+  pose proof (join_split_on nl_char t) as HJ. change (String nl_char "") with NL in HJ.
+  destruct (split_on nl_char t) as [|x [|y ys]] eqn:E.
+  - exfalso. exact (split_on_nonempty _ _ E).
+  - cbn [join] in HJ. subst x. cbn [comment_lines List.app].
+    assert (Ho : opens_comment ("/* " ++ t ++ " */") = None).
+    { rewrite opens_comment_open. now rewrite (has_close_app_r t " */" eq_refl). }
+    change (read_body rl None [""; "/* " ++ t ++ " */"; ""]) with
+      (match opens_comment ("/* " ++ t ++ " */") with
+       | Some r => read_body rl (Some r) [""]
+       | None => rl ("/* " ++ t ++ " */") :: read_body rl None [""]
+       end).
+    change (body_state None [""; "/* " ++ t ++ " */"; ""]) with
+      (match opens_comment ("/* " ++ t ++ " */") with
+       | Some r => body_state (Some r) [""]
+       | None => body_state None [""]
+       end).
+    rewrite Ho, Hrl. split; reflexivity.
+  - pose proof (Forall_inv HP) as Hx. pose proof (Forall_inv_tail HP) as HP'. cbn beta in Hx.
+    rewrite comment_lines_cons2.
+    assert (Ho : opens_comment ("/* " ++ x) = Some x) by (now rewrite opens_comment_open, Hx).
+    destruct (read_close_last rl x y ys [""] HP') as [E1 E2].
+    change (read_body rl None ("" :: (("/* " ++ x) :: close_last (y :: ys)) ++ [""])) with
+      (match opens_comment ("/* " ++ x) with
+       | Some r => read_body rl (Some r) (close_last (y :: ys) ++ [""])
+       | None => rl ("/* " ++ x) :: read_body rl None (close_last (y :: ys) ++ [""])
+       end).
+    change (body_state None ("" :: (("/* " ++ x) :: close_last (y :: ys)) ++ [""])) with
+      (match opens_comment ("/* " ++ x) with
+       | Some r => body_state (Some r) (close_last (y :: ys) ++ [""])
+       | None => body_state None (close_last (y :: ys) ++ [""])
+       end).
+    rewrite Ho, E1, body_state_app, E2, HJ. split; reflexivity.
+Qed.
+
+(* statement by statement *)
+Lemma flat_read {A : Type} (rl : string -> rline) (lines : A -> list string) (out : A -> rline) (l : list A) :
+  Forall (fun s => read_body rl None (lines s) = [out s] /\ body_state None (lines s) = None) l ->
+  read_body rl None (flat_map lines l) = map out l /\ body_state None (flat_map lines l) = None.
+Proof.
+  induction 1 as [|s l [H1 H2] _ [IH1 IH2]]; [split; reflexivity|]. cbn [flat_map map].
+  rewrite read_body_app by exact H2. rewrite body_state_app, H1, H2, IH1, IH2. split; reflexivity.
+Qed.
+
+Lemma flat_trail_good {A : Type} (lines : A -> list string) (l : list A) :
+  Forall (fun s => trail_good (lines s) = true) l -> trail_good (flat_map lines l) = true.
+Proof.
+  induction 1 as [|s l Hs _ IH]; [reflexivity|]. cbn [flat_map]. now apply trail_good_app.
+Qed.
+
+Lemma flat_no_nl {A : Type} (lines : A -> list string) (l : list A) :
+  Forall (fun s => Forall (fun x => no_nl x = true) (lines s)) l ->
+  Forall (fun x => no_nl x = true) (flat_map lines l).
+Proof.
+  induction 1 as [|s l Hs _ IH]; [constructor|]. cbn [flat_map]. apply Forall_app. now split.
+Qed.
+
+(* a line that starts with an identifier opens no comment *)
+Lemma opens_comment_ident (n x : string) : ident_ok n = true -> opens_comment (n ++ x) = None.
+Proof.
+  destruct n as [|c r]; [discriminate|]. cbn [ident_ok]. intros H. apply andb_true_iff in H.
+  destruct H as [Hc _]. unfold opens_comment. cbn [append strip_prefix].
+  destruct (Ascii.eqb_spec "/" c) as [<-|]; [discriminate Hc | reflexivity].
+Qed.
 
 Lemma comment_line_good (t : string) : no_nl t = true -> line_good ("/* " ++ t ++ " */").
 Proof.
@@ -652,7 +1024,8 @@ Section ReaderP.
 
   (* ---------------- the lines of a statement ---------------- *)
 
-  (* the one non-empty line a statement is written as *)
+  (* the text a statement is written as, without the empty lines around a
+     comment: one non-empty line, except for a comment whose text has newlines *)
   Definition main_line (s : stmt) : string :=
     match s with
     | SComment t => "/* " ++ t ++ " */"
@@ -673,12 +1046,23 @@ Section ReaderP.
         end
     end.
 
-  (* a comment is surrounded by two empty lines *)
+  (* the lines of a statement; a comment is surrounded by two empty lines and
+     occupies as many lines as its text *)
   Definition stmt_lines (s : stmt) : list string :=
     match s with
-    | SComment _ => [""; main_line s; ""]
+    | SComment t => "" :: comment_lines (split_on nl_char t) ++ [""]
     | _ => [main_line s]
     end.
+
+  Lemma comment_unlines (t : string) :
+    NL ++ "/* " ++ t ++ " */" ++ NL ++ NL = unlines ("" :: comment_lines (split_on nl_char t) ++ [""]).
+  Proof.
+    change ("" :: comment_lines (split_on nl_char t) ++ [""])%list
+      with ([""] ++ comment_lines (split_on nl_char t) ++ [""])%list.
+    rewrite !unlines_app, (unlines_comment_lines _ (split_on_nonempty nl_char t)).
+    change NL with (String nl_char "") at 4. rewrite join_split_on.
+    cbn [unlines]. now rewrite ?sapp_assoc, ?sapp_nil_r.
+  Qed.
 
   Lemma v3_stmt_unlines (s : stmt) (x : string) :
     v3_stmt s = Some x -> x = unlines (stmt_lines s).
@@ -692,7 +1076,7 @@ Section ReaderP.
         rewrite ?sapp_assoc, ?sapp_nil_r; reflexivity.
     - destruct (gargs gi) as [[|a0 l]|]; intros H; try discriminate; injection H as <-;
         rewrite ?sapp_assoc, ?sapp_nil_r; reflexivity.
-    - intros H; injection H as <-. rewrite ?sapp_assoc, ?sapp_nil_r. reflexivity.
+    - intros H; injection H as <-. apply comment_unlines.
   Qed.
 
   (* what a statement should read back as *)
@@ -719,11 +1103,12 @@ Section ReaderP.
   (* the side conditions of the round trip, statement by statement:
      names are identifiers, indices are natural numbers, reals are well-formed
      finite decimals, a gate has at least one qubit operand, a measure is
-     (qubit, bit), a reset is (qubit), a comment has no terminator and no newline;
+     (qubit, bit), a reset is (qubit), a comment has no terminator (it may have
+     newlines, empty lines, "/*", blanks anywhere: every text the builder accepts);
      no anonymous gate, no abstract measure or reset *)
   Definition stmt_ok (s : stmt) : Prop :=
     match s with
-    | SComment t => contains "*/" t = false /\ no_nl t = true
+    | SComment t => contains "*/" t = false
     | SGate _ _ gi =>
         exists n args, gname gi = Some n /\ gargs gi = Some args /\ ident_ok n = true /\
                        Forall arg_ok args /\ qubit_ids args <> []
@@ -737,13 +1122,15 @@ Section ReaderP.
 
   Definition writable (ir : list stmt) : Prop := Forall stmt_ok ir.
 
-  (* the weaker condition under which every statement still occupies exactly one
-     non-empty line: an anonymous gate is allowed when its text is not empty, has
-     no newline and does not end with a blank *)
+  (* the weaker condition under which every statement is still read as one
+     item: an anonymous gate is allowed when its text is not empty, has no
+     newline, does not end with a blank and does not open a block comment (it
+     is not "/* x" with x free of "*/"; see [read3_anonymous_open_comment_refuted]) *)
   Definition stmt_ok_anon (s : stmt) : Prop :=
     match s with
     | SGate _ g gi =>
-        stmt_ok s \/ (gargs gi = None /\ line_good (anon_text g) /\ anon_text g <> "")
+        stmt_ok s \/ (gargs gi = None /\ line_good (anon_text g) /\ anon_text g <> "" /\
+                      opens_comment (anon_text g) = None)
     | _ => stmt_ok s
     end.
 
@@ -776,7 +1163,9 @@ Section ReaderP.
     rewrite read_qubits_join; [reflexivity | discriminate | now constructor].
   Qed.
 
-  (* per statement: the line read back is the statement *)
+  (* per statement: the text read back is the statement (for a comment of
+     several lines the line reader is applied to the whole block, newlines
+     included; [read_stmt3_lines] below is the statement about the lines) *)
   Theorem read_line3_stmt (s : stmt) : stmt_ok s -> read_line3 (main_line s) = line_of s.
   Proof.
     destruct s as [o g gi|o q b ax gi|o q gi|t]; cbn [stmt_ok main_line line_of].
@@ -786,12 +1175,18 @@ Section ReaderP.
       cbn [Writer.v3_arg]. now apply read_measure_line.
     - intros (n & q' & rest & Hgn & Hga & Hn & Hq). rewrite Hga. unfold name_of. rewrite Hgn.
       cbn [Writer.v3_arg]. now apply read_reset_line.
-    - intros [Hc _]. unfold read_line3.
+    - intros Hc. unfold read_line3.
       rewrite comment_not_gate3, comment_not_assign3, (read_comment_text t Hc). reflexivity.
   Qed.
 
-  Lemma main_line_good (s : stmt) : stmt_ok_anon s -> line_good (main_line s) /\ main_line s <> "".
+  Definition is_comment_stmt (s : stmt) : bool := match s with SComment _ => true | _ => false end.
+
+  (* every statement but a comment is one good line that opens no comment *)
+  Lemma main_line_good (s : stmt) : stmt_ok_anon s -> is_comment_stmt s = false ->
+    line_good (main_line s) /\ main_line s <> "" /\ opens_comment (main_line s) = None.
   Proof.
+    intros Hok Hnc. cut ((line_good (main_line s) /\ main_line s <> "") /\ opens_comment (main_line s) = None); [tauto|].
+    revert Hok.
     assert (Hq : forall n a, ident_ok n = true ->
               forall_chars is_line_char (n ++ " " ++ a) = forall_chars is_line_char a).
     { intros n a Hn. rewrite !forall_chars_app.
@@ -799,24 +1194,49 @@ Section ReaderP.
       intros c Hc. now apply tok_is_line, ident_is_tok. }
     assert (Hqs : forall q, forall_chars is_line_char (qstr q) = true).
     { intros q. eapply forall_chars_mono; [exact tok_is_line | apply qstr_tok]. }
-    destruct s as [o g gi|o q b ax gi|o q gi|t]; cbn [stmt_ok_anon stmt_ok main_line].
-    - intros [(n & args & Hgn & Hga & Hn & Hargs & Hqn) | (Hga & Hg & Hne)].
-      + rewrite Hga. unfold name_of. rewrite Hgn. now apply gate_text_good.
+    destruct s as [o g gi|o q b ax gi|o q gi|t]; cbn [stmt_ok_anon stmt_ok main_line]; [| | |discriminate Hnc].
+    - intros [(n & args & Hgn & Hga & Hn & Hargs & Hqn) | (Hga & Hg & Hne & Ho)].
+      + rewrite Hga. unfold name_of. rewrite Hgn. split; [now apply gate_text_good|].
+        unfold gate_text. rewrite !sapp_assoc. now apply opens_comment_ident.
       + rewrite Hga. auto.
     - intros (n & q' & b' & rest & Hgn & Hga & Hn & Hq' & Hb). rewrite Hga. unfold name_of. rewrite Hgn.
-      cbn [Writer.v3_arg].
+      cbn [Writer.v3_arg]. split; [|rewrite measure_line_eq; reflexivity].
       assert (He : ends_bracket (bstr b' ++ " = " ++ n ++ " " ++ qstr q')).
       { do 4 apply ends_bracket_app. apply qstr_ends. }
       destruct (ends_bracket_good _ He) as [Hl Hne]. split; [split; [|exact Hl] | exact Hne].
       apply line_chars_no_nl. rewrite forall_chars_app, forall_chars_app, (Hq n _ Hn), Hqs.
       rewrite (forall_chars_mono is_tok_char is_line_char (bstr b') tok_is_line (bstr_tok b')). reflexivity.
     - intros (n & q' & rest & Hgn & Hga & Hn & Hq'). rewrite Hga. unfold name_of. rewrite Hgn.
-      cbn [Writer.v3_arg].
+      cbn [Writer.v3_arg]. split; [|now apply opens_comment_ident].
       assert (He : ends_bracket (n ++ " " ++ qstr q')).
       { do 2 apply ends_bracket_app. apply qstr_ends. }
       destruct (ends_bracket_good _ He) as [Hl Hne]. split; [split; [|exact Hl] | exact Hne].
       apply line_chars_no_nl. now rewrite (Hq n _ Hn), Hqs.
-    - intros [_ Hnl]. split; [now apply comment_line_good | discriminate].
+  Qed.
+
+  (* THE LINES OF ONE STATEMENT: they have no newline, the final rstrip stops at
+     them, and the body reader reads them as exactly one item, the one the line
+     reader gives for the whole text of the statement, leaving no comment open *)
+  Theorem read_stmt3_lines (s : stmt) : stmt_ok_anon s ->
+    Forall (fun l => no_nl l = true) (stmt_lines s) /\
+    trail_good (stmt_lines s) = true /\
+    read_body read_line3 None (stmt_lines s) = [read_line3 (main_line s)] /\
+    body_state None (stmt_lines s) = None.
+  Proof.
+    intros Hok. destruct (is_comment_stmt s) eqn:Ec.
+    - destruct s as [| | |t]; try discriminate Ec. cbn [stmt_ok_anon stmt_ok] in Hok.
+      assert (Hr : read_line3 ("/* " ++ t ++ " */") = RComment t).
+      { unfold read_line3. now rewrite comment_not_gate3, comment_not_assign3, (read_comment_text t Hok). }
+      rewrite <- has_close_contains in Hok. cbn [stmt_lines main_line]. rewrite Hr.
+      split; [|split; [|exact (comment_block_read read_line3 t Hok Hr)]].
+      + constructor; [reflexivity|]. apply Forall_app. split; [|repeat constructor].
+        apply comment_lines_no_nl, split_nl_no_nl.
+      + apply comment_block_trail_good, split_on_nonempty.
+    - destruct (main_line_good s Hok Ec) as ([Hnl Hl] & Hne & Ho).
+      assert (E : stmt_lines s = [main_line s]) by (destruct s; try reflexivity; discriminate Ec).
+      rewrite E. split; [repeat constructor; exact Hnl|]. split.
+      + cbn [trail_good forallb]. now rewrite Hl.
+      + now apply single_line_read.
   Qed.
 
   Lemma stmt_ok_anon_of_ok (s : stmt) : stmt_ok s -> stmt_ok_anon s.
@@ -836,11 +1256,11 @@ Section ReaderP.
               | b :: rest' =>
                   if is_empty b then
                     Some {| r_version := ver; r_nq := n; r_nb := 0;
-                            r_lines := map read_line3 (body_lines rest') |}
+                            r_lines := read_body read_line3 None rest' |}
                   else
                     match read_decl "bit[" "] b" b with
                     | Some m => Some {| r_version := ver; r_nq := n; r_nb := m;
-                                        r_lines := map read_line3 (body_lines rest') |}
+                                        r_lines := read_body read_line3 None rest' |}
                     | None => None
                     end
               end
@@ -853,20 +1273,19 @@ Section ReaderP.
   Lemma read3_eq (text : string) : read3 text = read3_lines (split_on nl_char text).
   Proof. reflexivity. Qed.
 
-  Lemma body_lines_app (a b : list string) : body_lines (a ++ b) = (body_lines a ++ body_lines b)%list.
-  Proof. apply filter_app. Qed.
+  (* the body (what follows the fourth line) leaves no comment open *)
+  Definition body_closed (rest : list string) : Prop :=
+    match rest with [] => True | _ :: rest' => body_state None rest' = None end.
 
-  Lemma body_lines_empties (k : nat) : body_lines (repeat "" k) = [].
-  Proof. induction k as [|k IH]; [reflexivity | exact IH]. Qed.
-
-  (* trailing empty lines do not matter *)
-  Lemma read3_lines_empty_tail (v e q : string) (rest : list string) (k : nat) :
-    read3_lines (v :: e :: q :: rest ++ repeat "" k) = read3_lines (v :: e :: q :: rest).
+  (* the number of trailing empty lines does not matter (when no comment is open) *)
+  Lemma read3_lines_empty_tail (v e q : string) (rest : list string) (k j : nat) :
+    body_closed (rest ++ repeat "" k) ->
+    read3_lines (v :: e :: q :: rest ++ repeat "" j) = read3_lines (v :: e :: q :: rest ++ repeat "" k).
   Proof.
-    unfold read3_lines. destruct rest as [|b rest'].
-    - cbn [List.app]. destruct k as [|k]; [reflexivity|]. cbn [repeat is_empty].
-      now rewrite body_lines_empties.
-    - cbn [List.app]. now rewrite body_lines_app, body_lines_empties, app_nil_r.
+    intros H. unfold read3_lines. destruct rest as [|b rest'].
+    - cbn [List.app]. destruct j as [|j], k as [|k]; cbn [repeat is_empty];
+        rewrite ?read_body_empties; reflexivity.
+    - cbn [List.app body_closed] in *. now rewrite (read_body_empty_tail read_line3 rest' k j H).
   Qed.
 
   Lemma read_decl_app (pre post : string) (k : Z) :
@@ -906,37 +1325,50 @@ Section ReaderP.
     no_nl (a ++ string_of_Z k ++ b) = true.
   Proof. intros Ha Hb. now rewrite !no_nl_app, Ha, Hb, string_of_Z_no_nl. Qed.
 
-  Lemma tail_lines_good (nb : Z) (ir : list stmt) :
-    Forall stmt_ok_anon ir -> Forall line_good (tail_lines nb ir).
+  Lemma trail_good_pair (l : string) : last_nonws l = true -> trail_good [l; ""] = true.
+  Proof. intros H. cbn [trail_good forallb is_empty andb last_nonws]. now rewrite H. Qed.
+
+  (* the statements of a circuit: what [read_stmt3_lines] says, for all of them *)
+  Lemma stmts_lines_good (ir : list stmt) :
+    Forall stmt_ok_anon ir ->
+    Forall (fun l => no_nl l = true) (flat_map stmt_lines ir) /\
+    trail_good (flat_map stmt_lines ir) = true /\
+    read_body read_line3 None (flat_map stmt_lines ir) = map (fun s => read_line3 (main_line s)) ir /\
+    body_state None (flat_map stmt_lines ir) = None.
   Proof.
-    intros H. unfold tail_lines. apply Forall_app. split.
-    - destruct (Z.ltb 0 nb); constructor; [|constructor]. unfold bit_line. split.
-      + now apply digits_no_nl.
-      + rewrite <- sapp_assoc. now rewrite last_nonws_app by discriminate.
-    - constructor; [split; reflexivity|]. induction H as [|s ir Hs _ IH]; [constructor|].
-      cbn [flat_map]. apply Forall_app. split; [|exact IH].
-      destruct (main_line_good s Hs) as [Hg _].
-      destruct s; cbn [stmt_lines]; repeat constructor; try exact Hg; try (apply Hg).
+    intros H. pose proof (Forall_impl _ read_stmt3_lines H) as HS. cbn beta in HS.
+    split; [|split].
+    - apply flat_no_nl. eapply Forall_impl; [|exact HS]. cbn beta. tauto.
+    - apply flat_trail_good. eapply Forall_impl; [|exact HS]. cbn beta. tauto.
+    - apply (flat_read read_line3 stmt_lines (fun s => read_line3 (main_line s))).
+      eapply Forall_impl; [|exact HS]. cbn beta. tauto.
   Qed.
 
-  Lemma body_lines_stmts (ir : list stmt) :
-    Forall stmt_ok_anon ir -> body_lines (flat_map stmt_lines ir) = map main_line ir.
+  Lemma tail_lines_good (nb : Z) (ir : list stmt) :
+    Forall stmt_ok_anon ir ->
+    Forall (fun l => no_nl l = true) (tail_lines nb ir) /\
+    trail_good (tail_lines nb ir) = true /\
+    body_closed (tail_lines nb ir).
   Proof.
-    induction 1 as [|s ir Hs _ IH]; [reflexivity|]. cbn [flat_map map].
-    rewrite body_lines_app, IH. destruct (main_line_good s Hs) as [_ Hne].
-    assert (E : body_lines [main_line s] = [main_line s]).
-    { unfold body_lines. cbn [filter]. unfold nonempty. destruct (main_line s); [congruence | reflexivity]. }
-    destruct s; cbn [stmt_lines]; try (rewrite E; reflexivity).
-    change (body_lines [""; main_line (SComment text); ""]) with
-      (body_lines [""] ++ body_lines [main_line (SComment text)] ++ body_lines [""])%list.
-    rewrite E. reflexivity.
+    intros H. destruct (stmts_lines_good ir H) as (H1 & H2 & _ & H3).
+    unfold tail_lines. destruct (Z.ltb 0 nb); cbn [List.app body_closed].
+    - split; [|split; [|exact H3]].
+      + constructor; [unfold bit_line; now apply digits_no_nl|]. constructor; [reflexivity | exact H1].
+      + change (bit_line nb :: "" :: flat_map stmt_lines ir)
+          with ([bit_line nb; ""] ++ flat_map stmt_lines ir)%list.
+        apply trail_good_app; [|exact H2]. apply trail_good_pair. unfold bit_line.
+        rewrite <- sapp_assoc. now rewrite last_nonws_app by discriminate.
+    - split; [|split; [|exact H3]].
+      + constructor; [reflexivity | exact H1].
+      + change ("" :: flat_map stmt_lines ir) with ([""] ++ flat_map stmt_lines ir)%list.
+        now apply trail_good_app.
   Qed.
 
   Lemma read3_lines_header (nq nb : Z) (ir : list stmt) :
     (0 <= nq)%Z -> (0 <= nb)%Z ->
     read3_lines ("version 3.0" :: "" :: qubit_line nq :: tail_lines nb ir) =
     Some {| r_version := "3.0"; r_nq := nq; r_nb := nb;
-            r_lines := map read_line3 (body_lines (flat_map stmt_lines ir)) |}.
+            r_lines := read_body read_line3 None (flat_map stmt_lines ir) |}.
   Proof.
     intros Hq Hb. unfold read3_lines.
     change (read_version "version 3.0") with (Some "3.0").
@@ -949,7 +1381,7 @@ Section ReaderP.
   Qed.
 
   (* the round trip, anonymous gates included: every statement is read back from
-     its own line, in order, none omitted *)
+     its own line(s), in order, none omitted *)
   Theorem read3_write3_lines (nq nb : Z) (ir : list stmt) (text : string) :
     write3 dec8 anon_text nq nb ir = Ok text ->
     (0 <= nq)%Z -> (0 <= nb)%Z -> Forall stmt_ok_anon ir ->
@@ -961,22 +1393,21 @@ Section ReaderP.
     rewrite (write3_decomp dec8 anon_text nq nb ir body Hbody) in Hw.
     assert (Ht : text = rstrip (header3 nq nb ++ body) ++ NL) by congruence. clear Hw. subst text.
     rewrite (header3_unlines nq nb ir body (body3_unlines ir body Hbody)).
-    pose proof (tail_lines_good nb ir Hok) as Hgood.
+    destruct (tail_lines_good nb ir Hok) as (Hnl & Htg & Hcl).
+    destruct (stmts_lines_good ir Hok) as (_ & _ & Hrd & _).
     assert (Hql : line_good (qubit_line nq) /\ qubit_line nq <> "").
     { unfold qubit_line. split; [split|discriminate].
       - now apply digits_no_nl.
       - rewrite <- sapp_assoc. now rewrite last_nonws_app by discriminate. }
     destruct Hql as [[Hqn Hql] Hqne].
-    destruct (rstrip_unlines ["version 3.0"; ""] (tail_lines nb ir) (qubit_line nq) Hqne Hql)
+    destruct (rstrip_unlines ["version 3.0"; ""] (tail_lines nb ir) (qubit_line nq) Hqne Hql Htg)
       as (R' & k & ER & ->).
-    { eapply Forall_impl; [|exact Hgood]. intros l Hl. apply Hl. }
     rewrite read3_eq, split_unlines.
     - cbn [List.app]. change [""] with (repeat "" 1).
-      rewrite read3_lines_empty_tail, <- (read3_lines_empty_tail _ _ _ R' k), <- ER.
-      rewrite (read3_lines_header nq nb ir Hq Hb), (body_lines_stmts ir Hok), map_map. reflexivity.
+      rewrite (read3_lines_empty_tail _ _ _ R' k 1) by (rewrite <- ER; exact Hcl). rewrite <- ER.
+      rewrite (read3_lines_header nq nb ir Hq Hb), Hrd. reflexivity.
     - cbn [List.app]. repeat constructor; [exact Hqn|].
-      rewrite ER in Hgood. apply Forall_app in Hgood. destruct Hgood as [Hgood _].
-      eapply Forall_impl; [|exact Hgood]. intros l Hl. apply Hl.
+      rewrite ER in Hnl. apply Forall_app in Hnl. now destruct Hnl.
   Qed.
 
   (* THE ROUND TRIP: the text of a writable circuit reads back as the circuit *)
@@ -1241,7 +1672,8 @@ Section ReaderP.
       rewrite <- IH by discriminate. now rewrite !sapp_assoc.
   Qed.
 
-  (* the one non-empty line of a statement in the cQASM 1 text *)
+  (* the text of a statement in the cQASM 1 text (one non-empty line, except
+     for a comment whose text has newlines) *)
   Definition main_line1 (s : stmt) : string :=
     match s with
     | SComment t => "/* " ++ t ++ " */"
@@ -1259,7 +1691,7 @@ Section ReaderP.
 
   Definition stmt_lines1 (s : stmt) : list string :=
     match s with
-    | SComment _ => [""; main_line1 s; ""]
+    | SComment t => "" :: comment_lines (split_on nl_char t) ++ [""]
     | _ => [main_line1 s]
     end.
 
@@ -1281,7 +1713,7 @@ Section ReaderP.
 
   Definition stmt_ok1 (s : stmt) : Prop :=
     match s with
-    | SComment t => contains "*/" t = false /\ no_nl t = true
+    | SComment t => contains "*/" t = false
     | SGate _ _ gi =>
         exists n args, gname gi = Some n /\ gargs gi = Some args /\ ident_ok n = true /\
                        Forall arg_ok args /\ forallb (fun a => negb (is_barg a)) args = true /\
@@ -1312,7 +1744,7 @@ Section ReaderP.
       now rewrite ?sapp_assoc, ?sapp_nil_r.
     - intros _ H. cbn [Writer.v1_stmt] in H.
       assert (E : x = NL ++ "/* " ++ t ++ " */" ++ NL ++ NL) by congruence. subst x.
-      now rewrite ?sapp_assoc, ?sapp_nil_r.
+      apply comment_unlines.
   Qed.
 
   Lemma lower_ascii_ident (c : ascii) :
@@ -1402,35 +1834,64 @@ Section ReaderP.
   Lemma single_qubit_line (n : string) (q : Z) :
     ident_ok n = true -> (0 <= q)%Z ->
     read_line1 (n ++ " " ++ qstr q) = RGate n [] [q] /\
-    line_good (n ++ " " ++ qstr q) /\ n ++ " " ++ qstr q <> "".
+    line_good (n ++ " " ++ qstr q) /\ n ++ " " ++ qstr q <> "" /\
+    opens_comment (n ++ " " ++ qstr q) = None.
   Proof.
     intros Hn Hq.
     assert (HF : Forall (fun a : arg => arg_ok a /\ is_barg a = false) [AQ q]) by (repeat constructor; auto).
     split.
     - unfold read_line1. change (qstr q) with (join ", " (map v1_text [AQ q])).
       rewrite (read_gate1_text n [AQ q] Hn); [reflexivity | discriminate | exact HF].
-    - change (qstr q) with (join ", " (map v1_text [AQ q])). apply gate_line1_good; [exact Hn | discriminate | exact HF].
+    - change (qstr q) with (join ", " (map v1_text [AQ q])).
+      destruct (gate_line1_good n [AQ q] Hn ltac:(discriminate) HF) as [G1 G2].
+      split; [exact G1|]. split; [exact G2 | now apply opens_comment_ident].
   Qed.
 
-  (* per statement *)
+  (* per statement: the text read back is the statement; every statement but a
+     comment is one good line that opens no comment *)
   Theorem read_line1_stmt (s : stmt) : stmt_ok1 s ->
-    read_line1 (main_line1 s) = line_of1 s /\ line_good (main_line1 s) /\ main_line1 s <> "".
+    read_line1 (main_line1 s) = line_of1 s /\
+    (is_comment_stmt s = false ->
+     line_good (main_line1 s) /\ main_line1 s <> "" /\ opens_comment (main_line1 s) = None).
   Proof.
-    destruct s as [o g gi|o q b ax gi|o q gi|t]; cbn [stmt_ok1 main_line1 line_of1].
+    destruct s as [o g gi|o q b ax gi|o q gi|t]; cbn [stmt_ok1 main_line1 line_of1 is_comment_stmt].
     - intros (n & args & Hgn & Hga & Hn & Hargs & Hnb & Hq). rewrite Hga. unfold name_of. rewrite Hgn.
       pose proof (lower_ident_ok n Hn) as Hln.
       pose proof (stmt_ok1_args gi args Hargs Hnb) as HF.
       pose proof (qubits_params_nonempty args Hq) as Hne.
-      split; [|now apply gate_line1_good].
-      unfold read_line1. rewrite (read_gate1_text (lower n) _ Hln Hne HF). cbn [first_some].
-      destruct (rarg1_params (qubits_of args ++ params_of args)) as [-> ->].
-      destruct (params_qubits_split args) as [-> ->]. reflexivity.
+      split.
+      + unfold read_line1. rewrite (read_gate1_text (lower n) _ Hln Hne HF). cbn [first_some].
+        destruct (rarg1_params (qubits_of args ++ params_of args)) as [-> ->].
+        destruct (params_qubits_split args) as [-> ->]. reflexivity.
+      + intros _. destruct (gate_line1_good (lower n) _ Hln Hne HF) as [G1 G2].
+        split; [exact G1|]. split; [exact G2 | now apply opens_comment_ident].
     - intros (q' & rest & Hga & Hq). rewrite Hga.
-      apply (single_qubit_line "measure_z" q' eq_refl Hq).
+      destruct (single_qubit_line "measure_z" q' eq_refl Hq) as (A & B). split; [exact A | intros _; exact B].
     - intros (q' & rest & Hga & Hq). rewrite Hga.
-      apply (single_qubit_line "prep_z" q' eq_refl Hq).
-    - intros [Hc Hnl]. split; [|split; [now apply comment_line_good | discriminate]].
+      destruct (single_qubit_line "prep_z" q' eq_refl Hq) as (A & B). split; [exact A | intros _; exact B].
+    - intros Hc. split; [|discriminate].
       unfold read_line1. now rewrite comment_not_gate1, (read_comment_text t Hc).
+  Qed.
+
+  (* THE LINES OF ONE STATEMENT in the cQASM 1 text *)
+  Theorem read_stmt1_lines (s : stmt) : stmt_ok1 s ->
+    Forall (fun l => no_nl l = true) (stmt_lines1 s) /\
+    trail_good (stmt_lines1 s) = true /\
+    read_body read_line1 None (stmt_lines1 s) = [line_of1 s] /\
+    body_state None (stmt_lines1 s) = None.
+  Proof.
+    intros Hok. destruct (read_line1_stmt s Hok) as [Hr Hg]. destruct (is_comment_stmt s) eqn:Ec.
+    - destruct s as [| | |t]; try discriminate Ec. cbn [stmt_ok1] in Hok. cbn [main_line1 line_of1] in Hr.
+      rewrite <- has_close_contains in Hok. cbn [stmt_lines1 line_of1].
+      split; [|split; [|exact (comment_block_read read_line1 t Hok Hr)]].
+      + constructor; [reflexivity|]. apply Forall_app. split; [|repeat constructor].
+        apply comment_lines_no_nl, split_nl_no_nl.
+      + apply comment_block_trail_good, split_on_nonempty.
+    - destruct (Hg eq_refl) as ([Hnl Hl] & Hne & Ho).
+      assert (E : stmt_lines1 s = [main_line1 s]) by (destruct s; try reflexivity; discriminate Ec).
+      rewrite E, <- Hr. split; [repeat constructor; exact Hnl|]. split.
+      + cbn [trail_good forallb]. now rewrite Hl.
+      + now apply single_line_read.
   Qed.
 
   (* ---------------- the whole cQASM 1 text ---------------- *)
@@ -1446,9 +1907,9 @@ Section ReaderP.
               | [e] => if is_empty e then Some (0%Z, []) else None
               | e :: q :: rest' =>
                   if is_empty e then
-                    if is_empty q then Some (0%Z, map read_line1 (body_lines rest'))
+                    if is_empty q then Some (0%Z, read_body read_line1 None rest')
                     else match read_decl "qubits " "" q with
-                         | Some n => Some (n, map read_line1 (body_lines rest'))
+                         | Some n => Some (n, read_body read_line1 None rest')
                          | None => None
                          end
                   else None
@@ -1462,24 +1923,22 @@ Section ReaderP.
   Lemma read1_eq (text : string) : read1 text = read1_lines (split_on nl_char text).
   Proof. reflexivity. Qed.
 
-  Lemma read1_lines_empty_snoc (v : string) (rest : list string) :
-    read1_lines (v :: rest ++ [""]) = read1_lines (v :: rest).
-  Proof.
-    unfold read1_lines. destruct (read_version v) as [ver|]; [|reflexivity].
-    destruct (String.eqb ver "1.0"); [|reflexivity].
-    destruct rest as [|e [|q rest']]; cbn [List.app].
-    - reflexivity.
-    - destruct (is_empty e); reflexivity.
-    - now rewrite body_lines_app, app_nil_r.
-  Qed.
+  (* the body (what follows the third line) leaves no comment open *)
+  Definition body_closed1 (rest : list string) : Prop :=
+    match rest with _ :: _ :: rest' => body_state None rest' = None | _ => True end.
 
-  Lemma read1_lines_empty_tail (v : string) (rest : list string) (k : nat) :
-    read1_lines (v :: rest ++ repeat "" k) = read1_lines (v :: rest).
+  Lemma read1_lines_empty_tail (v : string) (rest : list string) (k j : nat) :
+    body_closed1 (rest ++ repeat "" k) ->
+    read1_lines (v :: rest ++ repeat "" j) = read1_lines (v :: rest ++ repeat "" k).
   Proof.
-    induction k as [|k IH]; [now rewrite app_nil_r|].
-    replace (rest ++ repeat "" (S k))%list with ((rest ++ repeat "" k) ++ [""])%list.
-    - now rewrite read1_lines_empty_snoc.
-    - rewrite <- app_assoc. f_equal. change [""] with (repeat "" 1). rewrite <- repeat_app. f_equal. lia.
+    intros H. unfold read1_lines. destruct (read_version v) as [ver|]; [|reflexivity].
+    destruct (String.eqb ver "1.0"); [|reflexivity].
+    destruct rest as [|e [|q rest']].
+    - cbn [List.app]. destruct j as [|[|j]], k as [|[|k]]; cbn [repeat is_empty];
+        rewrite ?read_body_empties; reflexivity.
+    - cbn [List.app]. destruct j as [|j], k as [|k]; cbn [repeat is_empty];
+        rewrite ?read_body_empties; destruct (is_empty e); reflexivity.
+    - cbn [List.app body_closed1] in *. now rewrite (read_body_empty_tail read_line1 rest' k j H).
   Qed.
 
   Definition qubits_line1 (nq : Z) : string := if Z.ltb 0 nq then "qubits " ++ string_of_Z nq else "".
@@ -1495,32 +1954,25 @@ Section ReaderP.
       cbn [flat_map]. now rewrite unlines_app, (v1_stmt_unlines s x Hs Ex), (IH r eq_refl).
   Qed.
 
-  Lemma body_lines_stmts1 (ir : list stmt) :
-    exportable ir -> body_lines (flat_map stmt_lines1 ir) = map main_line1 ir.
-  Proof.
-    induction 1 as [|s ir Hs _ IH]; [reflexivity|]. cbn [flat_map map].
-    rewrite body_lines_app, IH. destruct (read_line1_stmt s Hs) as (_ & _ & Hne).
-    assert (E : body_lines [main_line1 s] = [main_line1 s]).
-    { unfold body_lines. cbn [filter]. unfold nonempty. destruct (main_line1 s); [congruence | reflexivity]. }
-    destruct s; cbn [stmt_lines1]; try (rewrite E; reflexivity).
-    change (body_lines [""; main_line1 (SComment text); ""]) with
-      (body_lines [""] ++ body_lines [main_line1 (SComment text)] ++ body_lines [""])%list.
-    rewrite E. reflexivity.
-  Qed.
-
   Lemma stmt_lines1_good (ir : list stmt) :
-    exportable ir -> Forall line_good (flat_map stmt_lines1 ir).
+    exportable ir ->
+    Forall (fun l => no_nl l = true) (flat_map stmt_lines1 ir) /\
+    trail_good (flat_map stmt_lines1 ir) = true /\
+    read_body read_line1 None (flat_map stmt_lines1 ir) = map line_of1 ir /\
+    body_state None (flat_map stmt_lines1 ir) = None.
   Proof.
-    induction 1 as [|s ir Hs _ IH]; [constructor|].
-    cbn [flat_map]. apply Forall_app. split; [|exact IH].
-    destruct (read_line1_stmt s Hs) as (_ & Hg & _).
-    destruct s; cbn [stmt_lines1]; repeat constructor; try exact Hg; try (apply Hg).
+    intros H. pose proof (Forall_impl _ read_stmt1_lines H) as HS. cbn beta in HS.
+    split; [|split].
+    - apply flat_no_nl. eapply Forall_impl; [|exact HS]. cbn beta. tauto.
+    - apply flat_trail_good. eapply Forall_impl; [|exact HS]. cbn beta. tauto.
+    - apply (flat_read read_line1 stmt_lines1 line_of1).
+      eapply Forall_impl; [|exact HS]. cbn beta. tauto.
   Qed.
 
   Lemma read1_lines_header (nq : Z) (ir : list stmt) :
     (0 <= nq)%Z ->
     read1_lines ("version 1.0" :: "" :: qubits_line1 nq :: "" :: flat_map stmt_lines1 ir) =
-    Some (nq, map read_line1 (body_lines (flat_map stmt_lines1 ir))).
+    Some (nq, read_body read_line1 None (flat_map stmt_lines1 ir)).
   Proof.
     intros Hq. unfold read1_lines. change (read_version "version 1.0") with (Some "1.0").
     cbn [String.eqb Ascii.eqb Bool.eqb is_empty]. unfold qubits_line1.
@@ -1547,26 +1999,26 @@ Section ReaderP.
                  unlines ([] ++ "version 1.0" :: "" :: qubits_line1 nq :: "" :: flat_map stmt_lines1 ir)).
     { rewrite Hbody. unfold qubits_line1. cbn [List.app unlines]. now rewrite ?sapp_assoc. }
     rewrite EL.
-    pose proof (stmt_lines1_good ir Hok) as Hgood.
+    destruct (stmt_lines1_good ir Hok) as (Hnl & Htg & Hrd & Hst).
     assert (Hql : line_good (qubits_line1 nq)).
     { unfold qubits_line1. destruct (Z.ltb 0 nq); [|split; reflexivity]. split.
       - now rewrite no_nl_app, string_of_Z_no_nl.
       - destruct (string_of_Z_nonneg nq Hq) as (_ & Hne & _).
         rewrite last_nonws_app by exact Hne. apply tok_last_nonws, string_of_Z_tok. }
-    assert (HR : Forall line_good ("" :: qubits_line1 nq :: "" :: flat_map stmt_lines1 ir)).
-    { repeat constructor; try apply Hql. exact Hgood. }
+    assert (HRn : Forall (fun l => no_nl l = true) ("" :: qubits_line1 nq :: "" :: flat_map stmt_lines1 ir)).
+    { repeat constructor; try apply Hql. exact Hnl. }
+    assert (HRt : trail_good ("" :: qubits_line1 nq :: "" :: flat_map stmt_lines1 ir) = true).
+    { change ("" :: qubits_line1 nq :: "" :: flat_map stmt_lines1 ir)
+        with ([""; qubits_line1 nq; ""] ++ flat_map stmt_lines1 ir)%list.
+      apply trail_good_app; [|exact Htg]. apply trail_good_all. repeat constructor. apply Hql. }
     destruct (rstrip_unlines [] ("" :: qubits_line1 nq :: "" :: flat_map stmt_lines1 ir) "version 1.0")
-      as (R' & k & ER & ->); [discriminate | reflexivity | |].
-    { eapply Forall_impl; [|exact HR]. intros l Hl. apply Hl. }
+      as (R' & k & ER & ->); [discriminate | reflexivity | exact HRt |].
     rewrite read1_eq, split_unlines.
     - cbn [List.app]. change [""] with (repeat "" 1).
-      rewrite read1_lines_empty_tail, <- (read1_lines_empty_tail _ R' k), <- ER.
-      rewrite (read1_lines_header nq ir Hq), (body_lines_stmts1 ir Hok), map_map.
-      do 2 f_equal. apply map_ext_in. intros s Hs. apply read_line1_stmt.
-      unfold exportable in Hok. rewrite Forall_forall in Hok. now apply Hok.
+      rewrite (read1_lines_empty_tail _ R' k 1) by (rewrite <- ER; exact Hst). rewrite <- ER.
+      rewrite (read1_lines_header nq ir Hq), Hrd. reflexivity.
     - cbn [List.app]. constructor; [reflexivity|].
-      rewrite ER in HR. apply Forall_app in HR. destruct HR as [HR _].
-      eapply Forall_impl; [|exact HR]. intros l Hl. apply Hl.
+      rewrite ER in HRn. apply Forall_app in HRn. now destruct HRn.
   Qed.
 
   (* the reals of the cQASM 1 text: Python's rendering, whose repaired form is a
@@ -1650,7 +2102,7 @@ Proof.
   - exists "Rx", [AQ 1%Z; AF ex_theta]. repeat split; try reflexivity; [|discriminate].
     constructor; [apply Q; lia | constructor; [|constructor]]. cbn [arg_ok]. now apply W.
   - exists "measure", 1%Z, 0%Z, []. repeat split; try reflexivity; lia.
-  - split; reflexivity.
+  - reflexivity.
 Qed.
 
 Example ex1_by_theorem (text : string) :
@@ -1714,7 +2166,141 @@ Example ex_empty_v1_round_trip :
   match export_v1 (fun x : dec => x) 0 [] with Ok t => read1 t | Err _ => None end = Some (0%Z, []).
 Proof. vm_compute. reflexivity. Qed.
 
+(* ---- block comments of several lines ---- *)
+
+(* a two-line comment, a comment with an empty line inside, the comment "*", a
+   comment containing the opening "/*", between gates and at both ends *)
+Definition ex_circuit5 : list (stmt dec) :=
+  [ SComment ("two" ++ NL ++ "lines");
+    SGate 1 ex_gate (mkGinfo (Some "H") (Some [AQ 0%Z]));
+    SComment ("above an empty line" ++ NL ++ NL ++ "below it ");
+    SComment "*";
+    SGate 2 ex_gate (mkGinfo (Some "X") (Some [AQ 1%Z]));
+    SComment ("a /* b" ++ NL ++ "/* c") ].
+
+Example ex5_text :
+  write3 (fun x => x) ex_anon 2 0 ex_circuit5 =
+  Ok ("version 3.0" ++ NL ++ NL ++ "qubit[2] q" ++ NL ++ NL ++
+      NL ++ "/* two" ++ NL ++ "lines */" ++ NL ++ NL ++
+      "H q[0]" ++ NL ++
+      NL ++ "/* above an empty line" ++ NL ++ NL ++ "below it  */" ++ NL ++ NL ++
+      NL ++ "/* * */" ++ NL ++ NL ++
+      "X q[1]" ++ NL ++
+      NL ++ "/* a /* b" ++ NL ++ "/* c */" ++ NL).
+Proof. vm_compute. reflexivity. Qed.
+
+Example ex5_round_trip :
+  match write3 (fun x => x) ex_anon 2 0 ex_circuit5 with Ok t => read3 t | Err _ => None end =
+  Some {| r_version := "3.0"; r_nq := 2; r_nb := 0;
+          r_lines := [ RComment ("two" ++ NL ++ "lines");
+                       RGate "H" [] [0%Z];
+                       RComment ("above an empty line" ++ NL ++ NL ++ "below it ");
+                       RComment "*";
+                       RGate "X" [] [1%Z];
+                       RComment ("a /* b" ++ NL ++ "/* c") ] |}.
+Proof. vm_compute. reflexivity. Qed.
+
+Example ex5_v1_round_trip :
+  match export_v1 (fun x => x) 2 ex_circuit5 with Ok t => read1 t | Err _ => None end =
+  Some (2%Z, [ RComment ("two" ++ NL ++ "lines");
+               RGate "h" [] [0%Z];
+               RComment ("above an empty line" ++ NL ++ NL ++ "below it ");
+               RComment "*";
+               RGate "x" [] [1%Z];
+               RComment ("a /* b" ++ NL ++ "/* c") ]).
+Proof. vm_compute. reflexivity. Qed.
+
+(* one by one, cQASM 3 and cQASM 1 *)
+Definition rt3_comment (t : string) : option (list rline) :=
+  match write3 (fun x => x) ex_anon 1 0 [SComment t] with
+  | Ok text => option_map r_lines (read3 text)
+  | Err _ => None
+  end.
+Definition rt1_comment (t : string) : option (list rline) :=
+  match export_v1 (fun x : dec => x) 1 [SComment t] with
+  | Ok text => option_map snd (read1 text)
+  | Err _ => None
+  end.
+
+Example ex_comment_two_lines :
+  let t := "first" ++ NL ++ "second" in
+  rt3_comment t = Some [RComment t] /\ rt1_comment t = Some [RComment t].
+Proof. vm_compute. split; reflexivity. Qed.
+
+Example ex_comment_empty_line :
+  let t := "first" ++ NL ++ NL ++ "third" in
+  rt3_comment t = Some [RComment t] /\ rt1_comment t = Some [RComment t].
+Proof. vm_compute. split; reflexivity. Qed.
+
+Example ex_comment_star :
+  rt3_comment "*" = Some [RComment "*"] /\ rt1_comment "*" = Some [RComment "*"].
+Proof. vm_compute. split; reflexivity. Qed.
+
+Example ex_comment_open_inside :
+  let t := "a /* b" in
+  rt3_comment t = Some [RComment t] /\ rt1_comment t = Some [RComment t].
+Proof. vm_compute. split; reflexivity. Qed.
+
+(* newlines and blanks at the ends of the text, a star before the newline, a
+   slash after it *)
+Example ex_comment_edges :
+  forallb (fun t => match rt3_comment t, rt1_comment t with
+                    | Some [RComment a], Some [RComment b] => String.eqb a t && String.eqb b t
+                    | _, _ => false
+                    end)
+    [ ""; NL; NL ++ NL; " "; " " ++ NL ++ " "; NL ++ "x"; "x" ++ NL; "a*" ++ NL ++ "/b"; "a *"; "/";
+      "x " ++ NL ++ " " ++ NL ++ " y " ] = true.
+Proof. vm_compute. reflexivity. Qed.
+
+(* the hypotheses of the theorems hold for the circuit: not vacuous for block comments *)
+Example ex5_writable : writable (fun x => x) ex_circuit5.
+Proof.
+  unfold writable, ex_circuit5.
+  repeat (constructor; [first [reflexivity | cbn [stmt_ok gname gargs]]|]); [| |constructor].
+  - exists "H", [AQ 0%Z]. repeat split; try reflexivity; [|discriminate]. constructor; [cbn; lia | constructor].
+  - exists "X", [AQ 1%Z]. repeat split; try reflexivity; [|discriminate]. constructor; [cbn; lia | constructor].
+Qed.
+
+Example ex5_by_theorem (text : string) :
+  write3 (fun x => x) ex_anon 2 0 ex_circuit5 = Ok text ->
+  read3 text = Some {| r_version := "3.0"; r_nq := 2; r_nb := 0;
+                       r_lines := map (line_of (fun x => x) ex_anon) ex_circuit5 |}.
+Proof. intros H. apply (read3_write3 (fun x => x) ex_anon 2 0 ex_circuit5 text H); [lia | lia | exact ex5_writable]. Qed.
+
+(* the terminator in the text is (still) not allowed: the comment ends early *)
+Example comment_with_terminator_refuted :
+  rt3_comment "a */ b" <> Some [RComment "a */ b"].
+Proof. vm_compute. discriminate. Qed.
+
+(* the condition added to [stmt_ok_anon] is needed: an anonymous gate whose text
+   is "/* x" (one good line: the old condition) opens a comment that swallows
+   the statements after it *)
+Example read3_anonymous_open_comment_refuted :
+  exists (anon : gate dec -> string) (ir : list (stmt dec)) (text : string),
+    Forall (fun s => match s with
+                     | SGate _ g gi => stmt_ok (fun x => x) s \/
+                                       (gargs gi = None /\ line_good (anon g) /\ anon g <> "")
+                     | _ => stmt_ok (fun x => x) s
+                     end) ir /\
+    write3 (fun x => x) anon 1 0 ir = Ok text /\
+    read3 text = Some {| r_version := "3.0"; r_nq := 1; r_nb := 0;
+                         r_lines := [RRaw ("/* x" ++ NL ++ "H q[0]" ++ NL)] |} /\
+    List.length ir = 2%nat.
+Proof.
+  exists (fun _ => "/* x"),
+         [SGate 1 ex_gate (mkGinfo None None); SGate 2 ex_gate (mkGinfo (Some "H") (Some [AQ 0%Z]))],
+         ("version 3.0" ++ NL ++ NL ++ "qubit[1] q" ++ NL ++ NL ++ "/* x" ++ NL ++ "H q[0]" ++ NL).
+  split; [|split; [vm_compute; reflexivity | split; [vm_compute; reflexivity | reflexivity]]].
+  constructor; [|constructor; [|constructor]].
+  - right. repeat split. discriminate.
+  - left. exists "H", [AQ 0%Z]. repeat split; try reflexivity; [|discriminate]. constructor; [cbn; lia | constructor].
+Qed.
+
 Print Assumptions read_line3_stmt.
+Print Assumptions read_stmt3_lines.
+Print Assumptions read_stmt1_lines.
+Print Assumptions read3_anonymous_open_comment_refuted.
+Print Assumptions ex5_by_theorem.
 Print Assumptions read3_write3_lines.
 Print Assumptions read3_write3.
 Print Assumptions read_param3_value.
